@@ -100,6 +100,9 @@ type Behaviour struct {
 	// DelayBeforeAfter sleeps between the last written byte and the After action (lets the peer read
 	// what was written before a reset can discard it)
 	DelayBeforeAfter time.Duration
+	// KeepAlive: the response does not announce "Connection: close"; after a complete exchange the
+	// backend waits for the next request on the same connection (what real inference servers do)
+	KeepAlive bool
 }
 
 func OK(body string) Behaviour {
@@ -130,12 +133,41 @@ type Backend struct {
 	stall        chan struct{}
 	conns        atomic.Int64
 	openConns    atomic.Int64
+	idleMu       sync.Mutex
+	idle         map[net.Conn]struct{}
 	wg           sync.WaitGroup
 }
 
 func (b *Backend) URL() string      { return fmt.Sprintf("http://127.0.0.1:%d", b.Port) }
 func (b *Backend) SideURL() string  { return fmt.Sprintf("http://127.0.0.1:%d", b.SidePort) }
-func (b *Backend) OpenConns() int64 { return b.openConns.Load() }
+// OpenConns counts connections inside an exchange; kept-alive connections waiting for a next request are not counted.
+func (b *Backend) OpenConns() int64 {
+	b.idleMu.Lock()
+	defer b.idleMu.Unlock()
+	return b.openConns.Load() - int64(len(b.idle))
+}
+
+// CloseIdle closes the kept-alive connections that are waiting for a next request.
+func (b *Backend) CloseIdle() {
+	b.idleMu.Lock()
+	for c := range b.idle {
+		c.Close()
+	}
+	b.idleMu.Unlock()
+}
+
+func (b *Backend) setIdle(c net.Conn, on bool) {
+	b.idleMu.Lock()
+	if b.idle == nil {
+		b.idle = map[net.Conn]struct{}{}
+	}
+	if on {
+		b.idle[c] = struct{}{}
+	} else {
+		delete(b.idle, c)
+	}
+	b.idleMu.Unlock()
+}
 
 // NewBackend starts a backend. With side=true health/model probes are answered on a separate
 // listener (so the main port can refuse while the endpoint is believed healthy).
@@ -346,6 +378,19 @@ func readRequest(br *bufio.Reader) (*Request, error) {
 func (b *Backend) serve(c net.Conn, side bool) {
 	defer c.Close()
 	br := bufio.NewReaderSize(c, 64<<10)
+	for b.serveOne(c, br, side) {
+		// a kept-alive connection: wait for the next request
+		b.setIdle(c, true)
+		c.SetReadDeadline(time.Now().Add(120 * time.Second))
+		_, err := br.Peek(1)
+		b.setIdle(c, false)
+		if err != nil {
+			return
+		}
+	}
+}
+
+func (b *Backend) serveOne(c net.Conn, br *bufio.Reader, side bool) (reuse bool) {
 	c.SetReadDeadline(time.Now().Add(30 * time.Second))
 	req, err := readRequest(br)
 	if err != nil || req == nil {
@@ -397,10 +442,11 @@ func (b *Backend) serve(c net.Conn, side bool) {
 	b.mu.Unlock()
 	b.conns.Add(1)
 	bh := plan(req)
-	b.act(c, req, bh)
+	reuse = b.act(c, req, bh)
 	if bh.OnDone != nil {
 		bh.OnDone()
 	}
+	return reuse
 }
 
 func rst(c net.Conn) {
@@ -410,7 +456,7 @@ func rst(c net.Conn) {
 	c.Close()
 }
 
-func (b *Backend) act(c net.Conn, req *Request, bh Behaviour) {
+func (b *Backend) act(c net.Conn, req *Request, bh Behaviour) (reuse bool) {
 	req.delayBeforeAfter = bh.DelayBeforeAfter
 	w := func(p []byte) bool {
 		n, err := c.Write(p)
@@ -453,7 +499,9 @@ func (b *Backend) act(c net.Conn, req *Request, bh Behaviour) {
 	}
 	// one exchange per connection, and say so: olla's transports must not pool a connection that
 	// this backend is about to close
-	hdr.WriteString("Connection: close\r\n")
+	if !bh.KeepAlive || bh.Framing == "close" {
+		hdr.WriteString("Connection: close\r\n")
+	}
 	switch bh.Framing {
 	case "chunked":
 		hdr.WriteString("Transfer-Encoding: chunked\r\n")
@@ -517,6 +565,9 @@ func (b *Backend) act(c net.Conn, req *Request, bh Behaviour) {
 	if bh.Framing == "chunked" {
 		w([]byte("0\r\n\r\n"))
 	}
+	if bh.KeepAlive && bh.Framing != "close" && req.ReadErr == "" {
+		return true
+	}
 	// graceful close: wait for the peer to finish reading (half-close), so that a complete
 	// response is never turned into a reset by unread request bytes
 	if tc, ok := c.(*net.TCPConn); ok {
@@ -524,6 +575,7 @@ func (b *Backend) act(c net.Conn, req *Request, bh Behaviour) {
 		c.SetReadDeadline(time.Now().Add(2 * time.Second))
 		io.Copy(io.Discard, c)
 	}
+	return false
 }
 
 func (b *Backend) after(c net.Conn, req *Request, how string) {
